@@ -10,6 +10,7 @@ import (
 	"strconv"
 	"strings"
 
+	"github.com/blang/semver"
 	"github.com/nikunjy/rules/parser"
 )
 
@@ -172,7 +173,7 @@ func relBig(op int, cmp int) bool {
 
 func checkC03(c *Ctx) {
 	c.Res.Rule = "single comparisons `path op literal` with an integer or decimal literal (boundary pools: 0, +-1, 2^31, 2^53+-1, int64 limits, halfway decimals, exponents, subnormals) in every spelling of the six relational operators, attribute drawn near the literal (equal, +-1, +-ulp, +-fraction, NaN, +-Inf, -0, int/int32/int64/float64) or of a non-numeric type; expected verdict computed independently with math/big; non-trivial = distinct (literal, operator, attribute) with a numeric attribute inside the quantifier domain"
-	n := c.budget(6000, 300000)
+	n := c.budget(25000, 300000)
 	var batch []*leafCase
 	prev := &pairMem{}
 	judge := func() {
@@ -264,6 +265,69 @@ func checkC03(c *Ctx) {
 			c.sample(map[string]string{"rule": lc.text, "object": lc.obj.Pretty(), "verdict": strconv.FormatBool(expected)})
 		}
 		batch = batch[:0]
+	}
+	// validation of the modelled std-lib pieces (not a statement about /repo): strconv.ParseFloat and float64(int)
+	{
+		var lines, want []string
+		add := func(t string) {
+			f, err := strconv.ParseFloat(t, 64)
+			w := "range"
+			if err == nil {
+				w = strconv.FormatUint(math.Float64bits(f), 16)
+				if f == 0 && !math.Signbit(f) {
+					w = "0"
+				}
+			}
+			lines = append(lines, "FLT\t"+t)
+			want = append(want, w)
+		}
+		for _, t := range dblPool {
+			add(t)
+		}
+		for _, t := range badDblPool {
+			add(t)
+		}
+		for i := 0; i < c.budget(3000, 60000); i++ {
+			add(genDbl(c.R))
+		}
+		for i := 0; i < 500; i++ {
+			// halfway cases around 2^53 and long digit strings
+			add(strconv.FormatUint(9007199254740992+uint64(c.R.Intn(64)), 10) + "." + strconv.Itoa(c.R.Intn(10)) + strings.Repeat("0", c.R.Intn(30)) + strconv.Itoa(c.R.Intn(2)))
+		}
+		nflt := len(lines)
+		for _, t := range longPool {
+			if v, ok := parseLongText(t); ok {
+				lines = append(lines, "INTF\t"+t)
+				w := strconv.FormatUint(math.Float64bits(float64(v)), 16)
+				if v == 0 {
+					w = "0"
+				}
+				want = append(want, w)
+			}
+		}
+		for i := 0; i < 2000; i++ {
+			v := int64(c.R.U64() >> uint(c.R.Intn(12)))
+			if c.R.Chance(1, 2) {
+				v = -v
+			}
+			lines = append(lines, "INTF\t"+strconv.FormatInt(v, 10))
+			w := strconv.FormatUint(math.Float64bits(float64(v)), 16)
+			if v == 0 {
+				w = "0"
+			}
+			want = append(want, w)
+		}
+		ans := c.ask(lines)
+		bad := 0
+		for i := range lines {
+			if ans[i] != want[i] && bad < 5 {
+				bad++
+				c.internal("model of strconv.ParseFloat / float64(int) disagrees with Go: " + lines[i] + " -> model " + ans[i] + ", Go " + want[i])
+			}
+		}
+		c.Res.Notes = append(c.Res.Notes, fmt.Sprintf("model validation: %d decimal literals against strconv.ParseFloat and %d integers against float64(int), bit for bit", nflt, len(lines)-nflt))
+		c.count("model_validation_cases")
+		c.Res.Dist["model_validation_cases"] = len(lines)
 	}
 	// corpus: the witnesses of defect D3 and friends
 	for _, w := range []struct {
@@ -384,7 +448,7 @@ func strRelGo(op int, a, b string) bool {
 
 func checkC04(c *Ctx) {
 	c.Res.Rule = "single comparisons with a quoted literal without backslash (empty, blanks, mixed case, non-ASCII incl. characters whose lower-casing changes the byte length, control characters) under the nine string operators in every spelling; attribute = the literal / a case variant / a prefix, suffix or infix extension / invalid UTF-8 / a fmt.Stringer / a non-string; expected verdict computed with strings.ToLower and Go's own string relations; non-trivial = distinct (literal, operator, attribute) with a string-like attribute"
-	n := c.budget(6000, 300000)
+	n := c.budget(25000, 300000)
 	var batch []*leafCase
 	prev := &pairMem{}
 	judge := func() {
@@ -452,7 +516,7 @@ func checkC04(c *Ctx) {
 
 func checkC08(c *Ctx) {
 	c.Res.Rule = "`p in [v1..vn]` (1-6 elements incl. duplicates, all comma spacings) against the expanded `p eq v1 or ... or p eq vn`, both evaluated by the engine on the same object, for integer, decimal and string lists; attribute = a member / case variant / float64 equal to an integer member / neighbour / other type / absent; also inside compound rules with several lists; non-trivial = distinct (list, attribute) where the attribute has the list's type family"
-	n := c.budget(4000, 200000)
+	n := c.budget(12000, 200000)
 	for i := 0; i < n && !c.full(); i++ {
 		kind := pick(c.R, []string{"ilist", "dlist", "slist"})
 		lf := &Node{T: NCmp, Path: genPath(c.R, 3), Op: 12, Lit: genLit(c.R, kind)}
@@ -657,7 +721,7 @@ func hasHugeComponent(s string) bool {
 
 func checkC09(c *Ctx) {
 	c.Res.Rule = "single comparisons with a version literal X.Y.Z (multi-digit components, 2^64 boundary) under the six relational operators in every spelling; attribute = valid semantic versions near the literal (bumped components, pre-release lists mixing numeric and alphanumeric identifiers, build metadata), near-misses (`1.0`, `v1.0.0`, `1.0.0.`, leading zeros, empty identifiers, blanks), Stringers and other types; expected verdict from an independent semver.org precedence with unbounded integers; non-trivial = distinct (literal, operator, attribute) where the attribute is a valid semantic version"
-	n := c.budget(6000, 300000)
+	n := c.budget(25000, 300000)
 	var batch []*leafCase
 	prev := &pairMem{}
 	judge := func() {
@@ -698,6 +762,40 @@ func checkC09(c *Ctx) {
 		}
 		batch = batch[:0]
 	}
+	// validation of the transcription of blang/semver (Parse + Compare) against the library itself
+	{
+		var lines, want []string
+		pool := append(append([]string{}, verPool...), semverNear...)
+		for i := 0; i < c.budget(3000, 60000); i++ {
+			a := pick(c.R, pool) + pick(c.R, semverSuffix)
+			b := pick(c.R, pool) + pick(c.R, semverSuffix)
+			if c.R.Chance(1, 3) {
+				b = a
+			}
+			w := "err"
+			if va, e1 := semver.Make(a); e1 == nil {
+				if vb, e2 := semver.Make(b); e2 == nil {
+					w = []string{"lt", "eq", "gt"}[va.Compare(vb)+1]
+				}
+			}
+			lines = append(lines, "SEMVER\t"+hx(a)+"\t"+hx(b))
+			want = append(want, w)
+		}
+		ans := c.ask(lines)
+		bad := 0
+		for i := range lines {
+			got := ans[i]
+			if got == "errA" || got == "errB" {
+				got = "err"
+			}
+			if got != want[i] && bad < 5 {
+				bad++
+				c.internal("model of blang/semver disagrees with the library: " + lines[i] + " -> model " + ans[i] + ", library " + want[i])
+			}
+		}
+		c.Res.Dist["model_validation_cases"] = len(lines)
+		c.Res.Notes = append(c.Res.Notes, fmt.Sprintf("model validation: %d version pairs against blang/semver v3.5.1 (Make + Compare)", len(lines)))
+	}
 	for _, w := range []struct{ text, a string }{{"x gt 1.9.0", "1.10.0"}, {"x lt 1.0.0", "1.0.0-beta"}, {"x eq 1.0.0", "1.0.0+build"}, {"x eq 1.0.0", "1.0"}, {"x eq 1.0.0", "v1.0.0"}, {"x eq 1.0.0", "1.0.0."}, {"x gt 1.0.0", "1.01.0"}, {"x eq 1.0.0", "01.0.0"}, {"x lt 1.0.0", "1.0.0-alpha.1"}, {"x gt 1.0.0-x", "1.0.0"}} {
 		if strings.Contains(w.text, "-x") {
 			continue
@@ -727,7 +825,7 @@ func checkC09(c *Ctx) {
 
 func checkC10(c *Ctx) {
 	c.Res.Rule = "`p pr`, `p eq|ne null`, `p eq|ne true|false` with paths of 1-5 segments; the object holds at the path every value class (false, 0, \"\", empty object, nil, typed nil pointer, bool, numbers, strings, Stringers, slices ...) or misses it at a random depth (missing key or explicit nil parent); stand-alone and as the second operand of a compound whose first operand resolves another attribute; expected verdict from the statement; non-trivial = distinct (rule shape, value class, depth at which the path ends)"
-	n := c.budget(6000, 200000)
+	n := c.budget(25000, 200000)
 	for i := 0; i < n && !c.full(); i++ {
 		path := genPath(c.R, 5)
 		var lf *Node
@@ -902,7 +1000,7 @@ func lawsOK(r sixResult) string {
 
 func checkC18(c *Ctx) {
 	c.Res.Rule = "for each ordered literal kind (integer, decimal, string, version): an attribute value and 2-3 literals from boundary pools (all pairs of the pools in thorough, random beyond); the six single-comparison rules are evaluated by the engine on the same object and the exported Operation methods are called directly with the same operands; laws: trichotomy, ne = not eq, le = lt or eq, ge = gt or eq, monotonicity in the literal, all-false when not comparable; no reference interpreter; non-trivial = distinct (attribute, literal pair) on which the attribute is comparable (some operator true)"
-	n := c.budget(2500, 120000)
+	n := c.budget(8000, 120000)
 	litOrder := func(kind string, a, b Lit) (int, bool) {
 		switch kind {
 		case "long":
